@@ -24,8 +24,9 @@ TECHNIQUE = (
 RULE = (
     "case = (150-700 rows, spectrum multiplicities, noise features, data seed, row permutation seed, max_iter 1-10, "
     "estimator interface decision_function / predict_proba (n,2) / predict_proba (n,1), optional GridSearchCV wrapper, optional explicit direction, train_fdr, feature-column "
-    "permutation of the prediction set, optional duplicated rows producing score ties). Each case trains 4 times "
-    "(identity/permuted rows x shuffle on/off). Non-trivial: max_iter>=2 and the row permutation is not the identity. "
+    "permutation of the prediction set, optional duplicated rows producing score ties). Each case trains 6 times "
+    "(identity/permuted rows x shuffle on/off, permuted rows keeping their index labels with 1/0 integer labels, explicit "
+    "feature list in another order than the table). Non-trivial: max_iter>=2 and the row permutation is not the identity. "
     "Distinct = distinct canonical JSON."
 )
 ASSUMPTIONS = [
@@ -72,11 +73,15 @@ def _accepted_set(vals, tg, thr, desc=True):
     return {i for i, l in enumerate(lab) if l == 1}, amb
 
 
-def _train(case, df, meta, order, shuffle, probe, probe2, tmp, tag):
+def _train(case, df, meta, order, shuffle, probe, probe2, tmp, tag, keep_index=False, int_labels=False, featlist=None):
     import mokapot
 
-    feats = meta["features"]
-    d = df.iloc[order].reset_index(drop=True)
+    feats = featlist or meta["features"]
+    d = df.iloc[order]
+    if not keep_index:
+        d = d.reset_index(drop=True)  # otherwise the frame keeps its permuted index labels, as df.iloc[perm] / sort_values give
+    if int_labels:
+        d = d.assign(Label=d["Label"].astype(int))  # 1/0 integers: documented to be coerced to booleans
     ds = mokapot.LinearPsmDataset(d, target_column="Label", spectrum_columns=meta["key_cols"], peptide_column="Peptide",
                                   protein_column="Proteins", feature_columns=feats, copy_data=True)
     logname = "c12_" + uuid.uuid4().hex
@@ -137,10 +142,15 @@ def check(case):
     failed = {}
     counters = {"fit_calls_checked": 0}
     with scratch_dir() as tmp:
-        for tag, order, shuffle in (("id-shuf", ident, True), ("perm-shuf", perm, True), ("id-noshuf", ident, False),
-                                    ("perm-noshuf", perm, False)):
+        frng = np.random.default_rng(case["colperm"] + 1)
+        featlist = [str(x) for x in frng.permutation([f for f in feats if f != "rid"])] + ["rid"]  # explicit list in another order than the table
+        variants = (("id-shuf", ident, True, {}), ("perm-shuf", perm, True, {}), ("id-noshuf", ident, False, {}),
+                    ("perm-noshuf", perm, False, {}),
+                    ("perm-index-kept-int-labels", perm, True, {"keep_index": True, "int_labels": True}),
+                    ("feature-list-permuted", ident, True, {"featlist": featlist}))
+        for tag, order, shuffle, opts in variants:
             try:
-                events, preds, model = _train(case, df, meta, order, shuffle, probe, probe2, tmp, tag)
+                events, preds, model = _train(case, df, meta, order, shuffle, probe, probe2, tmp, tag, **opts)
             except Rejected as r:
                 failed[tag] = str(r)
                 continue
@@ -206,7 +216,7 @@ def check(case):
                 f"training stops with '{next(iter(failed.values()))[:70]}' although {best} targets are accepted at FDR {thr} "
                 f"under {'feature ' + case['direction'] if case.get('direction') else 'the best feature'}")
     if failed:
-        require(len(failed) == 4, "training-outcome-differs",
+        require(len(failed) == 6, "training-outcome-differs",
                 f"training succeeds for {sorted(results)} but fails for {failed}: the outcome depends on row order / the shuffle switch")
         raise Rejected(next(iter(failed.values())))
     # ---- metamorphic relations on the probe set -------------------------------------------
